@@ -20,6 +20,7 @@ import itertools
 import numpy as np
 from hypothesis import strategies as st
 
+from vp import pbt
 from vp.pbt import SubCheck, represent
 
 PROPERTY = "C13"
@@ -180,6 +181,9 @@ def oracle_history(case, rec):
     if not ok:
         return
     observe(rec, data, model, climate, cycle, flag, months, "init")
+    held = {} if int(pbt.case_hash(case)[:4], 16) % 2 else None
+    rec.label("one_window_dict_reused" if held is not None
+              else "fresh_window_dicts")
 
     for k, op in enumerate(case["ops"]):
         if op["op"] == "global":
@@ -196,7 +200,15 @@ def oracle_history(case, rec):
                 rec.label("empty_window_skipped")
                 continue
             _label_window(rec, w, model)
-            ok, _ = rec.call("set_window", data.set_window, dict(w))
+            # callers keep ONE window dict and update it in place between
+            # calls in half of the histories (decided by the case itself)
+            if held is not None:
+                held.clear()
+                held.update(w)
+                arg = held
+            else:
+                arg = dict(w)
+            ok, _ = rec.call("set_window", data.set_window, arg)
             if not ok:
                 return
             model.apply(w)
